@@ -13,6 +13,7 @@ import (
 func runC06(c *Ctx, w *World, r *Report) {
 	names := append(append([]string{}, pbcmplFuncs...), "pbcmpl.newHeader", "pbcmpl.HeaderSize", "pbcmpl.Size", "pbcmpl.verStr", "pbcmpl.(*headerInfo).GetVersion",
 		"pbcmpl.(*headerInfo).GetHeaderSize", "pbcmpl.(*headerInfo).GetBodySize")
+	names = dropMissingHelpers(w, names, "pbcmpl.marshal")
 	fns, ok := requireFuncs(w, r, names...)
 	if !ok {
 		return
@@ -217,7 +218,10 @@ func runC06(c *Ctx, w *World, r *Report) {
 		r.Check(badS == "", "R-SIZE", "pbcmpl.Size", w.Pos(sz.Pos()), badS, "Size = HeaderSize(msg) + proto.Size(msg)")
 	}
 	// ---- R-DECL: marshal wiring
-	{
+	if fns["pbcmpl.marshal"] == nil {
+		// the helper is dissolved into Marshal: the same wiring, read off Marshal itself
+		reportDeclInMarshal(w, r, fns, pk)
+	} else {
 		fn := fns["pbcmpl.marshal"]
 		bad := ""
 		var dataCall, hdrCall, nh *ssa.Call
@@ -434,22 +438,43 @@ func runC06(c *Ctx, w *World, r *Report) {
 				badV = "result is not string(buf[:k])"
 				continue
 			}
-			// k = i+1 where i is the scan index: a phi starting at len(buf)-1 stepping -1
+			// the cut position follows a scan counter P that steps by -1: cut = P + c1 where the byte examined is
+			// buf[P + c2] with c1 = c2 + 1 (cut right after the last byte kept), and the first byte examined is the
+			// last one, buf[len(buf)-1]. (`for i = len-1; i >= 0 && buf[i] == 0; i--` cut i+1, or
+			// `for n > 0 && buf[n-1] == 0 { n-- }` cut n.)
 			L := fav.Lin(sl.High)
 			okK := false
 			for atom, coef := range L.T {
-				if p, ok := fav.AtomValue(atom).(*ssa.Phi); ok && coef == 1 && L.K == 1 && len(L.T) == 1 {
-					var hasInit, hasStep bool
-					for _, e := range p.Edges {
-						el := fav.Lin(e)
-						if el.Eq(linAtom("call:builtin len(p0)").Add(linConst(-1))) {
-							hasInit = true
-						} else if el.Eq(linAtom(atom).Add(linConst(-1))) {
-							hasStep = true
+				p, ok := fav.AtomValue(atom).(*ssa.Phi)
+				if !ok || coef != 1 || len(L.T) != 1 {
+					continue
+				}
+				c1 := L.K
+				var hasInit, hasStep bool
+				var d int64
+				for _, e := range p.Edges {
+					el := fav.Lin(e)
+					if dd := el.Sub(linAtom("call:builtin len(p0)")); dd.IsConst() {
+						hasInit, d = true, dd.K
+					} else if el.Eq(linAtom(atom).Add(linConst(-1))) {
+						hasStep = true
+					}
+				}
+				// the examined byte
+				okByte := false
+				eachInstr(vs, func(ins ssa.Instruction) {
+					ia, ok := ins.(*ssa.IndexAddr)
+					if !ok || ia.X != ssa.Value(vs.Params[0]) {
+						return
+					}
+					if dd := fav.Lin(ia.Index).Sub(linAtom(atom)); dd.IsConst() {
+						c2 := dd.K
+						if c1 == c2+1 && d+c2 == -1 {
+							okByte = true
 						}
 					}
-					okK = hasInit && hasStep
-				}
+				})
+				okK = hasInit && hasStep && okByte
 			}
 			if !okK {
 				badV = "cut position is " + L.String() + ", expected (index of last non-NUL byte)+1 scanning down from len(buf)-1"
@@ -476,7 +501,13 @@ func runC06(c *Ctx, w *World, r *Report) {
 			if !ok || ia.X != ssa.Value(vs.Params[0]) {
 				return
 			}
-			if _, isPhi := stripConv(ia.Index).(*ssa.Phi); !isPhi {
+			isScan := false
+			for atom := range fav.Lin(ia.Index).T {
+				if _, ok := fav.AtomValue(atom).(*ssa.Phi); ok {
+					isScan = true
+				}
+			}
+			if !isScan {
 				return
 			}
 			bd := fav.BoundsAt(ia.Block(), fav.Lin(ia.Index))
@@ -530,6 +561,120 @@ func runC06(c *Ctx, w *World, r *Report) {
 	ReportCount(w, r, "pbcmpl.Marshal", 0, isParamStream(fns["pbcmpl.Marshal"], 0))
 	ReportCount(w, r, "pbcmpl.Unmarshal", 0, isParamStream(fns["pbcmpl.Unmarshal"], 0))
 	ReportCount(w, r, "pbcmpl.ReadHeader", 0, isParamStream(fns["pbcmpl.ReadHeader"], 0))
+}
+
+// dropMissingHelpers: unexported helpers are anchors of convenience, not API: when one is gone (inlined into its
+// caller by a maintainer) the rules read the caller instead, and its absence is not an undecided anchor.
+func dropMissingHelpers(w *World, names []string, helpers ...string) []string {
+	var out []string
+	for _, n := range names {
+		skip := false
+		for _, h := range helpers {
+			if n == h {
+				if f := findFunc(w, n); f == nil || f.Blocks == nil {
+					skip = true
+				}
+			}
+		}
+		if !skip {
+			out = append(out, n)
+		}
+	}
+	return out
+}
+
+// reportDeclInMarshal: R-DECL and the version clause of R-VERSION when Marshal does the work of the former helper
+// marshal itself: data = proto.Marshal(msg); hdr = proto.Marshal(newHeader(ver, len(data))); Write(hdr); Write(data).
+func reportDeclInMarshal(w *World, r *Report, fns map[string]*ssa.Function, pk *ssa.Package) {
+	mf := fns["pbcmpl.Marshal"]
+	bad := ""
+	var dataCall, hdrCall, nh *ssa.Call
+	eachInstr(mf, func(ins ssa.Instruction) {
+		call, ok := ins.(*ssa.Call)
+		if !ok {
+			return
+		}
+		if call.Common().StaticCallee() == fns["pbcmpl.newHeader"] {
+			nh = call
+		}
+		if strings.HasSuffix(calleeName(call.Common()), "proto.Marshal") {
+			a := call.Common().Args[0]
+			if a == ssa.Value(mf.Params[1]) {
+				dataCall = call
+			} else if mi, ok := a.(*ssa.MakeInterface); ok {
+				if nhc, ok := mi.X.(*ssa.Call); ok && nhc.Common().StaticCallee() == fns["pbcmpl.newHeader"] {
+					hdrCall = call
+				}
+			}
+		}
+	})
+	var verArg ssa.Value
+	if dataCall == nil || hdrCall == nil || nh == nil {
+		bad = "Marshal does not encode msg, build a header with newHeader and encode that header"
+	} else {
+		isData := func(v ssa.Value) bool {
+			ex, ok := v.(*ssa.Extract)
+			return ok && ex.Tuple == ssa.Value(dataCall) && ex.Index == 0
+		}
+		isHdr := func(v ssa.Value) bool {
+			ex, ok := v.(*ssa.Extract)
+			return ok && ex.Tuple == ssa.Value(hdrCall) && ex.Index == 0
+		}
+		verArg = nh.Common().Args[0]
+		lc, ok := asCall(nh.Common().Args[1], "builtin len")
+		if !ok || !isData(lc.Common().Args[0]) {
+			bad = "the declared body size is not len(data) of the encoded message: " + w.FA(mf).Lin(nh.Common().Args[1]).String()
+		}
+		// what is written: the encoded header, then the encoded message whose length was declared
+		var writes []ssa.Value
+		eachInstr(mf, func(ins ssa.Instruction) {
+			if call, ok := ins.(*ssa.Call); ok && call.Common().IsInvoke() && call.Common().Method.Name() == "Write" && call.Common().Value == ssa.Value(mf.Params[0]) {
+				writes = append(writes, call.Common().Args[0])
+			}
+		})
+		if len(writes) != 2 || !isHdr(writes[0]) || !isData(writes[1]) {
+			bad = "Marshal does not write the encoded header followed by the encoded message whose length it declared"
+		}
+	}
+	r.Check(bad == "", "R-DECL", "pbcmpl.Marshal|wiring", w.Pos(mf.Pos()), bad, "data = proto.Marshal(msg); hdr = proto.Marshal(newHeader(ver, len(data))); Write(hdr); Write(data)")
+	badM := ""
+	if verArg == nil {
+		badM = "no header is built"
+	} else {
+		var hasDef, hasGet bool
+		for _, s := range resolvePhi(verArg) {
+			if cst, ok := s.(*ssa.Const); ok && cst.Value != nil && cst.Value.Kind() == constant.String {
+				dv, _ := pk.Members["DefaultVer"].(*ssa.NamedConst)
+				if dv == nil || constant.StringVal(cst.Value) != constant.StringVal(dv.Value.Value) {
+					badM = "default version is not DefaultVer"
+				}
+				hasDef = true
+				continue
+			}
+			if gc, ok := s.(*ssa.Call); ok && gc.Common().IsInvoke() && gc.Common().Method.Name() == "GetVersion" {
+				if ex, ok := gc.Common().Value.(*ssa.Extract); ok {
+					if ta, ok := ex.Tuple.(*ssa.TypeAssert); ok && ta.X == ssa.Value(mf.Params[1]) && ta.CommaOk {
+						hasGet = true
+						okc := false
+						for _, cd := range w.FA(mf).Conds(gc.Block()) {
+							if e2, ok := cd.V.(*ssa.Extract); ok && e2.Tuple == ex.Tuple && e2.Index == 1 && cd.Pol {
+								okc = true
+							}
+						}
+						if !okc {
+							badM = "GetVersion is called without the type assertion having succeeded"
+						}
+						continue
+					}
+				}
+			}
+			badM = "version given to newHeader is neither DefaultVer nor the message's GetVersion()"
+		}
+		if badM == "" && !(hasDef && hasGet) {
+			badM = "version must be DefaultVer or the VersionedMessage's own version"
+		}
+	}
+	r.Check(badM == "", "R-VERSION", "pbcmpl.Marshal|version", w.Pos(mf.Pos()), badM, "ver = DefaultVer | msg.(VersionedMessage).GetVersion()")
 }
 
 // reportAccept (R-ACCEPT): every size Marshal can record is accepted by Unmarshal.
